@@ -20,3 +20,4 @@ open RV.C19
 #print axioms shared_tail_witness
 #print axioms disjoint_second_keeps_list_partial
 #print axioms disjoint_second_keeps_list_witness
+#print axioms extend_view_refines
